@@ -73,7 +73,29 @@ class SimClock(object):
     def covered(self):
         return float(self.max_seen - self.min_seen)
 
+    # other readings of the clock: all derived from the simulated time()
+    def time_ns(self):
+        return int(self.time() * 1e9)
+
+    def monotonic(self):
+        return self.time() - self.start + 1000.0
+
+    def perf_counter(self):
+        return self.monotonic()
+
+    def process_time(self):
+        return self.monotonic() / 10.0
+
+    def monotonic_ns(self):
+        return int(self.monotonic() * 1e9)
+
+    def perf_counter_ns(self):
+        return int(self.monotonic() * 1e9)
+
+    def sleep(self, seconds):
+        self.now += max(0.0, float(seconds))     # simulated time jumps; nobody waits
+
     def __getattr__(self, name):
-        # anything but time(): the code never asked for it when this was written
+        # formatting helpers and constants (strftime, gmtime, struct_time, timezone ...) come from the real module
         self.ctx.probe("clock_other_attr_" + name)
         return getattr(_real_time, name)
